@@ -829,6 +829,21 @@ fn check_glob_spans(rep: &Report, c: &mut Counters, text: &str) {
                     break;
                 }
             }
+            // the same pattern failing inside a combinator reports the same locations (they
+            // index the failing pattern)
+            let direct: Vec<(usize, usize)> = err.locations().map(|l| l.span()).collect();
+            if let Ok(Err(any_err)) = guard(|| wax::any(["a", text])) {
+                let via_any: Vec<(usize, usize)> = any_err.locations().map(|l| l.span()).collect();
+                bump(c, "error_spans_checked_through_any", via_any.len() as u64);
+                if via_any != direct {
+                    rep.alarm(Alarm {
+                        class: None,
+                        key: format!("anyspan {:?}", text),
+                        msg: format!("build error of {:?}: spans {:?} directly but {:?} when the pattern fails inside any([\"a\", ..])", text, direct, via_any),
+                        case: json!({"kind": "spans", "expression": text, "check": "error"}),
+                    });
+                }
+            }
         },
         Ok(Ok(g)) => {
             bump(c, "built", 1);
